@@ -235,7 +235,15 @@ def units(tier):
         it.name = it.name.replace('c14_', 'c04_registry_')
         it.prop = PROP
         insts.append(it)
-    return [Unit('C04_translation', insts)]
+    # struct fields: whole-struct store and load (macro-expanded bodies, contracts of C08) translate the pointer field
+    # relative to the sandbox the guest image lives in, null <-> 0
+    from . import C08
+    sinsts = []
+    for it in (C08.store_inst('VOuter', tier), C08.load_inst('VOuter', tier)):
+        it.name = it.name.replace('c08_', 'c04_struct_')
+        it.prop = PROP
+        sinsts.append(it)
+    return [Unit('C04_translation', insts), Unit('C04_struct_fields', sinsts, includes=('rlbox.hpp', 'vsbx.hpp', 'vstructs.hpp'))]
 
 
 ASSUMPTIONS = [
